@@ -298,6 +298,43 @@ def check_str(tab, pivots, eqrows):
   return n, bad
 
 
+def check_eq_types():
+  """"equality ... yield validators that decide identically and print the same limits" when the
+  same raw limits are declared with different `type=` converters: two validators that compare
+  equal must agree on every probe; limits that convert to the same numbers compare equal"""
+  from openhtf.util import validators as V
+  bad = []
+  n = 0
+  limits = [(1.5, 5.5), ('1', '5'), (1, 5), (0.5, 2.5), ('1.5', '5.5'), (2, None), (None, 4.5)]
+  types = [None, int, float]
+  probes = [0, 1, 1.2, 1.5, 2, 2.5, 4.5, 5, 5.3, 5.5, 6]
+  vals = []
+  for lim in limits:
+    for ty in types:
+      st, v = _try(lambda: V.InRange(lim[0], lim[1], **({'type': ty} if ty else {})))
+      if st == 'ok':
+        vals.append((lim, ty, v))
+  for i, (la, ta, a) in enumerate(vals):
+    for lb, tb, b in vals[i:]:
+      n += 1
+      st, eq = _try(lambda: (a == b))
+      if st != 'ok':
+        continue
+      decide = []
+      for x in probes:
+        ra, rb = _try(lambda: bool(a(x))), _try(lambda: bool(b(x)))
+        decide.append(ra == rb)
+      if eq and not all(decide):
+        bad.append(('two in_range validators compare equal but decide differently',
+                    dict(a=[repr(la), str(ta)], b=[repr(lb), str(tb)])))
+      same_eff = _try(lambda: (a.minimum, a.maximum)) == _try(lambda: (b.minimum, b.maximum))
+      if same_eff and _try(lambda: (a.minimum, a.maximum))[0] == 'ok' and not eq and \
+          (a.marginal_minimum, a.marginal_maximum) == (b.marginal_minimum, b.marginal_maximum):
+        bad.append(('in_range validators whose converted limits are the same do not compare equal',
+                    dict(a=[repr(la), str(ta)], b=[repr(lb), str(tb)])))
+  return n, bad
+
+
 def _work(args):
   sys.argv = sys.argv[:1]
   kind, rows, extra = args
@@ -309,6 +346,8 @@ def _work(args):
     return check_pct(rows)
   if kind == 'pct-inexact':
     return check_pct_inexact()
+  if kind == 'eq-types':
+    return check_eq_types()
   return check_str(*rows)
 
 
@@ -337,6 +376,7 @@ def main(chk):
     jobs.append(('pct', pct[i:i + 30], None))
   jobs.append(('str', (strt, piv, eqr), None))
   jobs.append(('pct-inexact', None, None))
+  jobs.append(('eq-types', None, None))
   with mp.Pool(14) as pool:
     outs = pool.map(_work, jobs)
   for (kind, rows, _), (n, bad) in zip(jobs, outs):
